@@ -333,7 +333,11 @@ def run(R):
             errs = [bb for bb in writers_of(pdx, 0) if any(w[0] == 'variant' and w[2] == 'Ready' and term_contains(w[3][0], lambda x: x and x[0] == 'agg' and x[1].get('variant') == 'Err') for w in block_writes(pdx, bb, 0))]
             ok_t = any(pdx.dominates(true_t[0], e) for e in errs) if true_t else False
             R.check(ok_t, 'C16.R5', 'leftover->error', site(pdx, sw), 'leftover bytes at the end of a base64 body produce an error')
-            nones = [bb for bb in writers_of(pdx, 0) if any(w[0] == 'variant' and w[2] == 'Ready' and strip_refs(w[3][0])[0] == 'agg' and strip_refs(w[3][0])[1].get('variant') == 'None' for w in block_writes(pdx, bb, 0))]
+            def ends(v_):
+                v_ = strip_refs(v_)
+                # Ready(None), or Ready(trailers.take().map(..)) which is None exactly when no trailers are stored
+                return (v_[0] == 'agg' and v_[1].get('variant') == 'None') or (is_call(v_, name='map') and is_call(strip_refs(v_[2][0]), name='take') and mentions_field(v_[2][0], 'trailers'))
+            nones = [bb for bb in writers_of(pdx, 0) if any(w[0] == 'variant' and w[2] == 'Ready' and ends(w[3][0]) for w in block_writes(pdx, bb, 0))]
             ok_f = all(false_t and pdx.dominates(false_t[0], n) for n in nones) and bool(nones)
             R.check(ok_f, 'C16.R5', 'clean-end-only-without-leftover', site(pdx, sw), 'Ready(None) only on the no-leftover edge')
             g = pdx.edge_guards(hr[0][0])
